@@ -108,8 +108,18 @@ def py_issue(w, cfg, op, call):
                 big = np.zeros((2 * arr.shape[0],) + arr.shape[1:], dtype=arr.dtype)
                 big[0::2] = arr
                 arr = big[0::2]
+            elif form == "swapped" and arr.dtype.itemsize > 1:
+                # same values in the opposite byte order: the writer has to convert to the stored order
+                arr = arr.astype(arr.dtype.newbyteorder("S"))
+            elif form == "onedim" and cfg["nsub"] == 1 and arr.ndim == 2 and arr.shape[1] == 1:
+                arr = arr.reshape(-1)  # documented: a 1-D array for a single-subchannel writer
             if op["op"] == "w":
-                ret = w.rf_write(arr, op["idx"])
+                if form == "defnext" and op["idx"] == w.get_next_available_sample():
+                    ret = w.rf_write(arr)  # next_sample=None: "the next available sample after previous writes"
+                elif form == "npidx":
+                    ret = w.rf_write(arr, np.uint64(op["idx"]))
+                else:
+                    ret = w.rf_write(arr, op["idx"])
             else:
                 g = np.array(op["g"], dtype=np.uint64)
                 d = np.array(op["d"], dtype=np.uint64)
